@@ -538,6 +538,21 @@ namespace hgraph::ts_data_plan_factory_detail
                 return ops.tracking_impl(ops.context, values_.value_memory(slot))->last_modified_time != MIN_DT;
             }
 
+            // Removing a key clears its modified mark. When the key comes back
+            // in the same cycle its child keeps its state, and a child that has
+            // already ticked at this time does not notify its parent again for
+            // further writes at the same time, so the mark has to be restored
+            // here or the tick's delta would miss the key.
+            void restore_modified_mark(std::size_t slot, DateTime modified_time)
+            {
+                const auto &ops = element_type_.ops_ref();
+                if (ops.tracking_impl(ops.context, values_.value_memory(slot))->last_modified_time == modified_time &&
+                    child_has_current_value(slot))
+                {
+                    modified_.set(slot);
+                }
+            }
+
             void reserve(std::size_t capacity)
             {
                 keys_.reserve_to(capacity);
@@ -564,11 +579,13 @@ namespace hgraph::ts_data_plan_factory_detail
                 {
                     removed_.reset(result.slot);
                     value_published_.set(result.slot);
+                    restore_modified_mark(result.slot, modified_time);
                 }
                 else if (child_valid(result.slot))
                 {
                     value_published_.set(result.slot);
                     added_.set(result.slot);
+                    restore_modified_mark(result.slot, modified_time);
                 }
                 (void)key_set_tracking_.record_modified(modified_time);
                 return mutation_result(result.slot, result.constructed);
@@ -591,11 +608,13 @@ namespace hgraph::ts_data_plan_factory_detail
                 {
                     removed_.reset(result.slot);
                     value_published_.set(result.slot);
+                    restore_modified_mark(result.slot, modified_time);
                 }
                 else if (child_valid(result.slot))
                 {
                     value_published_.set(result.slot);
                     added_.set(result.slot);
+                    restore_modified_mark(result.slot, modified_time);
                 }
                 (void)key_set_tracking_.record_modified(modified_time);
                 return mutation_result(result.slot, result.constructed);
